@@ -33,6 +33,8 @@ def slot_of(e):
         return ('arr', norm(e[1]), int(e[2][1]))
     if e[0] in ('var', 'upvar'):
         return ('cell', e)
+    if e[0] == 'field' and strip_refs(e[1])[0] in ('var', 'upvar') and str(e[2]).isdigit():
+        return ('arr', norm(e[1]), int(e[2]))        # a pair given field names (`Regrets { one, two }`, read by position)
     return None
 
 
@@ -311,6 +313,13 @@ def run(ctx):
                     continue
             if k == 'assign' and e[0] == 'agg' and e[1].startswith('closure:'):
                 continue
+            # packed, unchanged, into a tuple / parameter record that travels to the next solver level
+            if k == 'assign' and e[0] == 'agg' and e[1] == 'tuple' and any(strip_refs(x) == thr for x in e[2]):
+                continue
+            if k.startswith('arg') and e[0] == 'call' and (short(e[1]).startswith('solve_') or short(e[1]) in ('new', 'run')):
+                a = strip_refs(e[2][int(k[3:])])
+                if a[0] == 'agg' and a[1] == 'tuple' and any(strip_refs(x) == thr for x in a[2]):
+                    continue
             bad.append((bi, k, facts.show(e)[:80]))
         ctx.verdict(not bad and bool(uses), rule, '%s:%s' % (rule, suf), 'the threshold parameter is only passed on unchanged to the next solver level (or captured by the scope closure)',
                     f.where(uses[0][0]) if uses else '', '%d use(s); other uses: %s' % (len(uses), bad))
